@@ -33,7 +33,16 @@ VARIABLES line, n
 vars == <<line, n>>
 LineView == line
 
-Init == line = <<>> /\ n = 0
+\* DATA statements by grammar rather than by lexeme soup: two items of every kind (numeric, word,
+\* quoted, empty, explicitly empty, quoted text that looks numeric, a quote inside a word, an open
+\* quote, padded, exponent form, nan) around every separator spelling, with every kind of tail.
+DItems == { B("1"), B("x"), B("\"a\""), B("\"\""), <<>>, B("\"-1\""), B("a\"b"), B("\"a"), B(" x y "), B("-1E3"), B("nan") }
+DSeps == { B(","), B(" , "), <<44, 9>> }
+DPosts == { <<>>, B(":PRINT"), B(" :REM"), B(" ") }
+DataLines == { B("DATA") \o sp \o a \o sep \o b \o post : sp \in {<<>>, B(" ")}, a \in DItems, b \in DItems, sep \in DSeps, post \in DPosts }
+
+Init == \/ line = <<>> /\ n = 0
+        \/ line \in DataLines /\ n = MaxLex
 Next == /\ n < MaxLex
         /\ \E x \in Lexemes : line' = line \o x
         /\ n' = n + 1
